@@ -259,6 +259,9 @@ def fam_orders(T=3, thorough=False):
         [(-3, 0, 2, 1), (0, H, 1, 2)], [(0, H, 1, 2), (H, H + 2, -2, 9)],   # one order wholly outside
         [(-3, -1, 2, 1)], [(H + 1, H + 3, -1, 9)],                # all orders outside
         [(0, 1, 1, 1), (0, 1, 1, 3), (0, 1, -1, 2)],              # competing orders on one step
+        # an order without any step in the horizon listed BEFORE / BETWEEN orders of which the last is too large for the companions to absorb in
+        # full (partial execution would pay): with full execution it must stay at 0, and the outside order must stay inert
+        [(-3, 0, 2, 1), (0, H, 1, 2), (0, 1, 4, 1)], [(0, H, 1, 2), (H + 1, H + 3, -1, 9), (1, 2, 4, 1)],
     ]
     for orders, full, companion, pr in itertools.product(books, (False, True), ('contract', 'storage'), ([3, 1, 4], [2, 5, 1])):
         pr = (pr * T)[:T]
